@@ -99,6 +99,15 @@ def gen_case(rng, k):
             nxt = ([x[0] for x in IMPORT_CHANGES].index(prev[-1]["name"]) + 1) % len(IMPORT_CHANGES) if prev else rng.choice([0, 2, 5])
             nm, c = IMPORT_CHANGES[nxt] if rng.random() < 0.6 else rng.choice(IMPORT_CHANGES); m = {"kind": "import", "name": nm}
         changes.append(c); metas.append(m)
+    if k % 7 == 3:
+        # a, b, a : the same change (and, per mode, the same patch file) twice, b producing what a matches
+        i, j, kk = rng.sample(range(5), 3)
+        a, ma = rename(i, j, rng.choice(["plain", "extra", "twice"]))
+        b, mb = rename(kk, i, rng.choice(["plain", "keep-inner", "binary"]))
+        changes, metas = [a, b, a], [ma, mb, dict(ma, repeated=True)]
+        if rng.random() < 0.5:
+            changes.append(NOMATCH); metas.append({"kind": "nomatch"})
+        extra.append("func rep() { %s(7); _ = %s(%s(8)) }" % (FN[kk], FN[i], FN[kk]))
     if k % 6 == 5:
         fail_at = rng.randrange(n + 1)
         nm, c, decl = rng.choice(FAILING)
@@ -110,9 +119,13 @@ def gen_case(rng, k):
 
 def combined_args(changes, mode, d):
     """writes the patch files under d; returns (argv, stdin)"""
+    seen = {}
     def w(name, text):
+        if text in seen and not name.startswith(("all", "list", "first", "second")):
+            return seen[text]            # the same patch file named twice
         with open(os.path.join(d, name), "w") as f:
             f.write(text)
+        seen[text] = name
         return name
     if mode == "one-file":
         return ["-p", w("all.patch", "".join(changes))], b""
@@ -196,6 +209,8 @@ def main():
         ck.tally("mode", mode)
         ck.tally("changes", len(changes))
         ck.tally("effective_steps", sum(1 for s in o["steps"] if s["changed"]))
+        if any(m.get("repeated") for m in metas):
+            ck.tally("repeated_change", mode)
         for m in metas:
             ck.tally("change_kind", m["kind"] + (":" + m.get("name", m.get("shape", "")) if m["kind"] != "nomatch" else ""))
         rep = {"case": "c09#%d" % k, "mode": mode, "argv": o["argv"], "changes": changes, "file": src,
